@@ -183,3 +183,14 @@ Theorem C02_never_out_of_fuel_given_measure_partial :
       end.
 Proof. exact TreeFuel.loop_never_out_of_fuel_given_measure. Qed.
 Print Assumptions C02_never_out_of_fuel_given_measure_partial.
+
+(* the loop fuel of the model is irrelevant once the loop answers (coq/Tree/TreeLoop.v): two runs of the Reprocess loop
+   with different fuel that both answer (Ok or Panic) give the same answer and the same state; html5ever's loop has no
+   fuel.  (That the loop always answers - termination - is the open part, see C02_never_out_of_fuel_given_measure_partial.) *)
+From HV Require Tree.TreeLoop.
+Theorem C02_loop_answer_fuel_independent :
+  forall f1 f2 t more s,
+    TreeModel.ptc_loop f1 t more s <> TreeTypes.OutOfFuel -> TreeModel.ptc_loop f2 t more s <> TreeTypes.OutOfFuel ->
+    TreeModel.ptc_loop f1 t more s = TreeModel.ptc_loop f2 t more s.
+Proof. exact TreeLoop.loop_answer_fuel_independent. Qed.
+Print Assumptions C02_loop_answer_fuel_independent.
